@@ -34,6 +34,20 @@ Theorem C14_failed_call_no_effect_atomic : forall fl a h s c s' o,
 Proof. exact failed_call_no_effect_atomic. Qed.
 Print Assumptions C14_failed_call_no_effect_atomic.
 
+(* whether a bind is refused is COMPUTED from the positions, addends and offset formats of the label's pending fixups
+   (what the instructions handed to new_fixup): the count the code reports is ignored *)
+Theorem C14_bind_atomic_ignores_patchfail : forall h s id pf1 pf2,
+  bind_assembler_atomic h s id pf1 = bind_assembler_atomic h s id pf2.
+Proof. exact bind_atomic_ignores_patchfail. Qed.
+Print Assumptions C14_bind_atomic_ignores_patchfail.
+
+Theorem C14_bind_atomic_refuses_iff : forall h s id pf p,
+  nthZ (st_labels s) id = Some (LUnbound p) ->
+  (o_ret (snd (bind_assembler_atomic h s id pf)) = kInvalidDisplacement <->
+   exists f, In f p /\ fx_reloc f = false /\ fx_section f = st_cur s /\ disp_fits f (cur_size s) = false).
+Proof. exact bind_atomic_refuses_iff. Qed.
+Print Assumptions C14_bind_atomic_refuses_iff.
+
 (* a failed instruction clears the one-shot state (options, extra register, inline comment), also under a throwing handler *)
 Theorem C14_state_cleared : forall fl a h s r s' o,
   step fl a h s (CInst r) = (s', o) -> failed o = true -> st_one s' = one_clear.
@@ -98,9 +112,17 @@ Proof. exact rel_paths_fail_before_effects. Qed.
 Print Assumptions C14_rel_paths_fail_before_effects.
 
 Theorem C14_rel_invalid_label_refused : forall a s k id sh lg,
-  label_valid s id = false -> rel_result a s k id sh lg = UErr kInvalidLabel false.
+  label_valid s id = false ->
+  rel_result a s k id sh lg = UErr kInvalidLabel false \/ rel_result a s k id sh lg = UErr kInvalidPhysId false.
 Proof. exact rel_invalid_label_refused. Qed.
 Print Assumptions C14_rel_invalid_label_refused.
+
+(* AArch64 cbz/tbz/adr/ldr-literal: a register id that names no register is refused before the label is looked at, so no
+   fixup / relocation exists afterwards whatever the label's state *)
+Theorem C14_a64_rel_bad_register_refused : forall a s bits discard id sh lg,
+  rel_result a s (A64Rel bits discard false) id sh lg = UErr kInvalidPhysId false.
+Proof. exact a64_rel_bad_register_refused. Qed.
+Print Assumptions C14_a64_rel_bad_register_refused.
 
 (* the verdict computed for these instructions is a well-formed encoder verdict: all theorems above apply to it *)
 Theorem C14_rel_cmd_wf : forall a s k id, wf_cmd (rel_cmd a s k id).
@@ -108,7 +130,7 @@ Proof. exact rel_cmd_wf. Qed.
 Print Assumptions C14_rel_cmd_wf.
 
 (* the 32-bit `[label]` path as written in the pinned tree reads the label table with an invalid id (DESIGN 7.3) *)
-Theorem C14_x86_lea32_pinned_refuted : exists s id, exec (label_valid s) (x86_lea32_path_pinned s id) acc0 = UStuck.
+Theorem C14_x86_lea32_pinned_refuted : exists s id, exec (label_valid s) (cur_size s) (x86_lea32_path_pinned s id) acc0 = UStuck.
 Proof. exact x86_lea32_pinned_refuted. Qed.
 Print Assumptions C14_x86_lea32_pinned_refuted.
 
@@ -123,26 +145,55 @@ Print Assumptions C14_a64_disp_codec.
 (* ---- memory-operand path of `add r32, [mem]` on x86-32/x86-64 (C14MemPathModel.v): C13's validator model, then
    EmitX86M prefixes + EmitModSib with every table read instrumented; the verdict (bytes | error) is computed ---- *)
 (* no table is read out of bounds for ANY base/index type (5-bit fields), segment (3-bit field), id, shift, offset *)
-Theorem C14_mem_path_never_stuck : forall x64 add_id m,
+Theorem C14_mem_path_never_stuck : forall x64 absloc cur add_id m,
   0 <= m_btype m <= x86c_mem_base_type_max -> 0 <= m_itype m <= x86c_mem_index_type_max -> 0 <= m_seg m <= x86c_mem_segment_max ->
-  x86_add_mem x64 add_id m <> MStuck.
+  x86_add_mem x64 absloc cur add_id m <> MStuck.
 Proof. exact mem_path_never_stuck. Qed.
 Print Assumptions C14_mem_path_never_stuck.
 
-Theorem C14_mem_encode_never_stuck : forall x64 m,
+Theorem C14_mem_encode_never_stuck : forall x64 absloc cur m,
   0 <= m_btype m <= x86c_mem_base_type_max -> 0 <= m_itype m <= x86c_mem_index_type_max -> 0 <= m_seg m <= x86c_mem_segment_max ->
-  x86_add_mem_encode x64 m <> MStuck.
+  x86_add_mem_encode x64 absloc cur m <> MStuck.
 Proof. exact mem_encode_never_stuck. Qed.
 Print Assumptions C14_mem_encode_never_stuck.
 
-Theorem C14_mem_cmd_wf : forall a add_id m c, mem_cmd a add_id m = Some c -> wf_cmd c.
+Theorem C14_mem_cmd_wf : forall a hb s add_id m c, mem_cmd a hb s add_id m = Some c -> wf_cmd c.
 Proof. exact mem_cmd_wf. Qed.
 Print Assumptions C14_mem_cmd_wf.
 
-Theorem C14_mem_cmd_bytes_only : forall a add_id m c, mem_cmd a add_id m = Some c ->
-  exists r, c = CInst r /\ match r with EncOk _ fx _ dr da ds => fx = None /\ dr = 0 /\ da = 0 /\ ds = 0 | EncErr _ => True end.
+Theorem C14_mem_cmd_bytes_only : forall a hb s add_id m c, mem_cmd a hb s add_id m = Some c ->
+  exists r, c = CInst r /\ match r with EncOk _ fx _ dr da ds => fx = None /\ 0 <= dr <= 1 /\ da = 0 /\ ds = 0 | EncErr _ => True end.
 Proof. exact mem_cmd_bytes_only. Qed.
 Print Assumptions C14_mem_cmd_bytes_only.
+
+(* ---- VEX + VSIB path of `vgatherdps v, [base + v*s + d], v` (VEX forms): opcode_l_by_vmem / opcode_l_by_size, EmitVexEvexM
+   prefixes, EmitModVSib; all four table reads instrumented; verdict computed ---- *)
+Theorem C14_vsib_encode_never_stuck : forall x64 v,
+  0 <= m_btype (v_mem v) <= x86c_mem_base_type_max -> 0 <= m_itype (v_mem v) <= x86c_mem_index_type_max ->
+  0 <= m_seg (v_mem v) <= x86c_mem_segment_max -> 0 <= v_dsize v <= x86c_size_max ->
+  index_type_allowed (m_itype (v_mem v)) ->
+  x86_vgather_encode x64 v <> MStuck.
+Proof. exact vsib_encode_never_stuck. Qed.
+Print Assumptions C14_vsib_encode_never_stuck.
+
+(* for the VALIDATED instruction the hypothesis is discharged through C13's validator model (validate = kOk implies the index
+   type is in the validator's accept mask): no table read of the whole path validate -> encode is out of bounds *)
+Theorem C14_vsib_path_never_stuck : forall x64 inst_id v,
+  0 <= m_btype (v_mem v) <= x86c_mem_base_type_max -> 0 <= m_itype (v_mem v) <= x86c_mem_index_type_max ->
+  0 <= m_seg (v_mem v) <= x86c_mem_segment_max -> 0 <= v_dsize v <= x86c_size_max ->
+  x86_vgather x64 inst_id v <> MStuck.
+Proof. exact vsib_path_never_stuck. Qed.
+Print Assumptions C14_vsib_path_never_stuck.
+
+(* the hypothesis "index type admitted by the validator" is needed: kMask (16) as index type reads past ll_by_reg_type_table *)
+Theorem C14_vsib_unvalidated_refuted : exists x64 v,
+  0 <= m_itype (v_mem v) <= x86c_mem_index_type_max /\ x86_vgather_encode x64 v = MStuck.
+Proof. exact vsib_unvalidated_refuted. Qed.
+Print Assumptions C14_vsib_unvalidated_refuted.
+
+Theorem C14_vsib_cmd_wf : forall a inst_id v c, vsib_cmd a inst_id v = Some c -> wf_cmd c.
+Proof. exact vsib_cmd_wf. Qed.
+Print Assumptions C14_vsib_cmd_wf.
 
 (* ---- bounds of the table look-ups indexed by operand fields (tables and index sets dumped from the repository) ---- *)
 Theorem C14_lookups_in_range : forall s, In s sites -> forall i, In i (site_idx s) ->
